@@ -46,7 +46,11 @@ macro_rules! span {
             } else {
                 let span = __CALLSITE.disabled_span();
                 $crate::if_log_enabled! { $lvl, {
-                    span.record_all(&$crate::valueset!(__CALLSITE.metadata().fields(), $($fields)*));
+                    // Only evaluate the fields when the `log` record made
+                    // from them can be emitted at all.
+                    if $crate::level_to_log!($lvl) <= $crate::log::max_level() {
+                        span.record_all(&$crate::valueset!(__CALLSITE.metadata().fields(), $($fields)*));
+                    }
                 }};
                 span
             }
@@ -77,7 +81,11 @@ macro_rules! span {
             } else {
                 let span = __CALLSITE.disabled_span();
                 $crate::if_log_enabled! { $lvl, {
-                    span.record_all(&$crate::valueset!(__CALLSITE.metadata().fields(), $($fields)*));
+                    // Only evaluate the fields when the `log` record made
+                    // from them can be emitted at all.
+                    if $crate::level_to_log!($lvl) <= $crate::log::max_level() {
+                        span.record_all(&$crate::valueset!(__CALLSITE.metadata().fields(), $($fields)*));
+                    }
                 }};
                 span
             }
